@@ -15,7 +15,7 @@ BASE_WEIGHTS = {"mk": 4, "mk_child": 4, "add": 2, "set": 4, "set_parent": 3, "bs
                 "tag_remove": 1, "node_parent": 2, "follow": 2, "unfollow": 1, "set_p": 1, "k_rename": 1, "h_doc": 1, "delete": 2, "expunge": 1,
                 "flush": 4, "commit": 2, "rollback": 1, "begin_nested": 0, "sp_commit": 0, "sp_rollback": 0, "close": 0, "requery": 1, "get": 1,
                 "lazy": 1, "expire": 0, "expire_all": 0, "refresh": 0, "mut_data": 0, "mut_items": 0, "ext_update": 0, "merge": 0, "drop": 0,
-                "gc": 0, "pickle_rt": 0, "populate_existing": 0, "q_ops": 1, "g_ops": 2, "expire_attr": 0, "read": 0, "m_ops": 0, "m_reload": 0, "m_expire_part": 0, "stream": 0, "o_bounce": 0, "row_switch": 0, "set_k": 1, "bulk": 0,
+                "gc": 0, "pickle_rt": 0, "populate_existing": 0, "q_ops": 1, "g_ops": 2, "expire_attr": 0, "read": 0, "m_ops": 0, "m_reload": 0, "m_expire_part": 0, "stream": 0, "o_bounce": 0, "row_switch": 0, "expunge_owner": 0, "set_k": 1, "bulk": 0,
                 "row_replace": 0, "label": 1, "make_transient": 0}
 
 
